@@ -20,8 +20,18 @@
   Operations are arbitrary functions `σ → Except ε σ`; the index-consistency clause is carried
   by an arbitrary invariant `Inv` preserved by the operations (for the real operations that
   preservation is C19–C21).
+
+  LAST SECTION (C22 × C19/C20/C21): the same theorems INSTANTIATED with the faithful redb store
+  model of `Model/Store.lean` (`Model/CrashRedb.lean`: state = identity row + `Store.Tables`,
+  one operation = the closure of `RedbStore::insert / remove_height / mark_as_sampled /
+  update_sampling_metadata`, reopen = the closure of `RedbStore::new`).  Under the same
+  hypothesis `AtomicDurableCommit`, after any crash in any history the reopened store is the
+  store model's state after a prefix containing every acknowledged operation, and in it the
+  C19 range invariants, the C21 chain / hash-index invariants and `Spec.C22.consistent` (on
+  the canonical dump) hold: `redb_crash_reopen_partial`, `redb_crash_reopen_history_partial`.
 -/
 import Lumina.Proofs.Crash
+import Lumina.Proofs.CrashRedb
 
 namespace Lumina.Props.C22
 open Lumina.Model.Crash Lumina.Proofs.Crash
@@ -224,5 +234,182 @@ example :
     CrashImage B (0, []) [inc, bad] (1, [7, 7]) 1 := by
   intro B inc bad
   exact CrashImage.inAbort (B := B) [inc] [] bad () (1, [7, 7]) rfl rfl rfl
+
+/-! ## C22 × C19/C20/C21: the crash theorems instantiated with the redb store model -/
+
+section Redb
+open Lumina.Model Lumina.Model.Store Lumina.Model.CrashRedb
+open Lumina.Spec.C19 (AbsStore)
+open Lumina.Proofs.Store Lumina.Proofs.CrashRedb
+
+/-- "header, hash and range indexes mutually consistent" for a state `db` of the redb store
+    model, in the terms of the properties it comes from:
+    C19 (sampled ⊆ stored, pruned ∩ stored = ∅ on the range table), C21 (headers stored at
+    consecutive heights verify as adjacent; the hash index leads back to the same header) and
+    C22's own decidable predicate on the canonical table dump (headers table = stored ranges,
+    hash index = inverse of the headers table, neighbours hash-linked, sampled ⊆ stored,
+    pruned disjoint, metadata only for stored heights, identity present). -/
+structure StoreConsistent (v : Hdr → Hdr → Bool) (name : Hash → String) (parent : Hdr → Hash) (db : Db) : Prop where
+  sampled_within_stored : ∀ h, Ranges.mem (CrashRedb.rawRanges db.tables .sampled) h →
+      Ranges.mem (CrashRedb.rawRanges db.tables .header) h
+  pruned_disjoint_stored : ∀ h, Ranges.mem (CrashRedb.rawRanges db.tables .pruned) h →
+      ¬ Ranges.mem (CrashRedb.rawRanges db.tables .header) h
+  adjacent_verify : ∀ h x y, RedbStore.getByHeight db.tables h = .ok x →
+      RedbStore.getByHeight db.tables (h + 1) = .ok y → verifyAdjacent v x y = true
+  hash_index : ∀ h x, RedbStore.getByHeight db.tables h = .ok x →
+      x.height = h ∧ RedbStore.getByHash db.tables x.hash = .ok x ∧ RedbStore.containsHash db.tables x.hash = true
+  dump_consistent : Lumina.Spec.C22.consistent (dumpOf name parent db) = true
+
+/-- accepted adjacent headers are hash-linked: `ExtendedHeader::verify` of an adjacent pair
+    checks `untrusted.last_block_id.hash == trusted.hash()`; `parent` is that projection of the
+    header content.  Hypothesis on the verification oracle (it is what makes "verifies" imply
+    the dump's "parent name = name of the header below"). -/
+def HashLinked (v : Hdr → Hdr → Bool) (parent : Hdr → Hash) : Prop :=
+  ∀ x y, x.height + 1 = y.height → v x y = true → parent y = x.hash
+
+/-- **one transaction of the crash model is one call of the store model**: effect and result
+    of `txOf v op` under `applyOp` / `resultOf` are those of `RedbStore.step v · op`, and a call
+    that does not reach `write_tx` (a query, a batch rejected by the `VerifiedExtendedHeaders`
+    conversion) leaves the tables alone. -/
+theorem redb_tx_is_step (v : Hdr → Hdr → Bool) (op : Op) (db : Db) :
+    applyOp db (txOf v op) = { db with tables := (RedbStore.step v db.tables op).1 } ∧
+    (op.mutating = true →
+      toRes (resultOf db (txOf v op)) (fun _ => Out.unit) = (RedbStore.step v db.tables op).2) ∧
+    (issuesTx v op = false → (RedbStore.step v db.tables op).1 = db.tables) :=
+  ⟨applyOp_txOf v op db, fun hm => resultOf_txOf v op hm db, noTx_unchanged v op db.tables⟩
+
+/-- without a crash: the disk shows the store model's state after the history, and every call
+    was answered with the store model's result (under `AtomicDurableCommit`) -/
+theorem redb_run_refines (B : Backend D Db) (hB : AtomicDurableCommit B) (v : Hdr → Hdr → Bool)
+    (d : D) (ops : List Op) (hm : ∀ op ∈ ops, op.mutating = true) :
+    B.view (runDisk B d (ops.map (txOf v))) =
+      { B.view d with tables := (runOps (RedbStore.step v) (B.view d).tables ops).1 } ∧
+    (runResults B d (ops.map (txOf v))).map (fun r => toRes r (fun _ => Out.unit)) =
+      (runOps (RedbStore.step v) (B.view d).tables ops).2 := by
+  constructor
+  · rw [runDisk_view B hB, runAbs_txs]
+  · rw [runResults_eq B hB, resultsAbs_txs v ops hm]
+
+/-- **C19 + C21 on the redb store model, plus the bridge to `Spec.C22.consistent`**: every
+    state the store model reaches by a history (no unvalidated header stored: `ValidRun`, as in
+    C19/C21) has consistent indexes in all five senses of `StoreConsistent`. -/
+theorem redb_reachable_consistent (v : Hdr → Hdr → Bool) (name : Hash → String) (parent : Hdr → Hash)
+    (hlink : HashLinked v parent) (ops : List Op) (hw : AllWf ops)
+    (hvr : ValidRun v Lumina.Spec.C19.init ops) (ident : Nat) (hid : ident ≠ 0) :
+    StoreConsistent v name parent ⟨ident, (runOps (RedbStore.step v) RedbStore.new ops).1⟩ := by
+  obtain ⟨_, r⟩ := redb_run_sim v ops hw _ _ rr_init absInv_init hvr
+  obtain ⟨hi, hver⟩ := abs_run_inv v ops hw _ absInv_init (absVer_init v)
+  refine ⟨fun h hs => ?_, fun h hp hh => ?_, fun h x y hx hy => ?_, fun h x hx => ?_, ?_⟩
+  · exact (r.memH h).2 (hi.sampled h ((r.memS h).1 hs))
+  · have := hi.pruned h ((r.memP h).1 hp)
+    rw [(r.memH h).1 hh] at this; cases this
+  · exact redb_chain r hi v hver h x y hx hy
+  · exact redb_hashIndex r hi h x hx
+  · exact consistent_dump r hi v hver name parent hlink ident hid
+
+/-- **C22 for the redb store model** (PARTIAL: `AtomicDurableCommit B` is assumed).
+    `d₀` is the disk of a store right after its first `RedbStore::new` (identity `id0`, tables
+    empty); `ops` is ANY history of `Store` calls (batches valid or not, removals, marks,
+    metadata updates), each run as its one write transaction; the process crashes anywhere
+    (between calls, inside a closure, inside `commit`, inside `abort`) when `n` calls had
+    returned, leaving `d'`.  Then `RedbStore::new` on `d'` returns `Ok`, and the store it opens
+    is the store model's state after the first `k` calls, `n ≤ k ≤ n + 1` (every acknowledged
+    call included, at most the one in flight in doubt), with the original identity, and its
+    indexes are consistent (`StoreConsistent`: C19, C21, `Spec.C22.consistent`). -/
+theorem redb_crash_reopen_partial (B : Backend D Db) (hB : AtomicDurableCommit B)
+    (v : Hdr → Hdr → Bool) (name : Hash → String) (parent : Hdr → Hash) (hlink : HashLinked v parent)
+    (d₀ : D) (id0 : Nat) (hid : id0 ≠ 0) (hd₀ : B.view d₀ = fresh id0)
+    (ops : List Op) (hw : AllWf ops) (hvr : ValidRun v Lumina.Spec.C19.init ops)
+    (d' : D) (n : Nat) (hc : CrashImage B d₀ (ops.map (txOf v)) d' n) (newId : Nat) :
+    (reopen B (openTx newId) d').2 = .ok () ∧
+    ∃ k, n ≤ k ∧ k ≤ n + 1 ∧ k ≤ ops.length ∧
+      B.view (reopen B (openTx newId) d').1 =
+        ⟨id0, (runOps (RedbStore.step v) RedbStore.new (ops.take k)).1⟩ ∧
+      StoreConsistent v name parent (B.view (reopen B (openTx newId) d').1) := by
+  obtain ⟨hok, k, h1, h2, h3, h4, _⟩ :=
+    crash_reopen_partial B hB d₀ (ops.map (txOf v)) d' n hc (fun db => db.identity = id0) (openTx newId)
+      (by rw [hd₀]; rfl)
+      (by
+        intro op hop s s' hs hos
+        obtain ⟨o, _, rfl⟩ := List.mem_map.1 hop
+        rw [txOf_identity v o s s' hos]; exact hs)
+      (by intro s hs; exact openTx_id newId s (by rw [hs]; exact hid))
+  have hview : B.view (reopen B (openTx newId) d').1 =
+      ⟨id0, (runOps (RedbStore.step v) RedbStore.new (ops.take k)).1⟩ := by
+    rw [h4, ← List.map_take, runAbs_txs, hd₀]; rfl
+  refine ⟨hok, k, h1, h2, by simpa using h3, hview, ?_⟩
+  rw [hview]
+  exact redb_reachable_consistent v name parent hlink (ops.take k) (allWf_take hw k)
+    (validRun_take v ops _ hvr k) id0 hid
+
+/-- **the same for a history with queries and rejected batches in it**, read exactly: only the
+    calls with `issuesTx` reach `write_tx` (the others never touch the file), so the crash
+    history is `ops.filter (issuesTx v)`, `n` counts the transactions that had returned.  The
+    reopened store is the store model's state after a prefix `ops.take j` of the WHOLE history
+    whose transactions are the first `k` transactions, `n ≤ k ≤ n + 1`.  Hypothesis on the
+    headers as in `redb_conforms_validated`: every header handed to `insert` is validated. -/
+theorem redb_crash_reopen_history_partial (B : Backend D Db) (hB : AtomicDurableCommit B)
+    (v : Hdr → Hdr → Bool) (name : Hash → String) (parent : Hdr → Hash) (hlink : HashLinked v parent)
+    (d₀ : D) (id0 : Nat) (hid : id0 ≠ 0) (hd₀ : B.view d₀ = fresh id0)
+    (ops : List Op) (hw : AllWf ops) (hval : AllValidated ops)
+    (d' : D) (n : Nat) (hc : CrashImage B d₀ ((ops.filter (issuesTx v)).map (txOf v)) d' n) (newId : Nat) :
+    (reopen B (openTx newId) d').2 = .ok () ∧
+    ∃ k j, n ≤ k ∧ k ≤ n + 1 ∧ k ≤ (ops.filter (issuesTx v)).length ∧ j ≤ ops.length ∧
+      (ops.take j).filter (issuesTx v) = (ops.filter (issuesTx v)).take k ∧
+      B.view (reopen B (openTx newId) d').1 =
+        ⟨id0, (runOps (RedbStore.step v) RedbStore.new (ops.take j)).1⟩ ∧
+      StoreConsistent v name parent (B.view (reopen B (openTx newId) d').1) := by
+  have hw' : AllWf (ops.filter (issuesTx v)) := fun o ho => hw o (List.mem_filter.1 ho).1
+  have hval' : AllValidated (ops.filter (issuesTx v)) := fun o ho => hval o (List.mem_filter.1 ho).1
+  obtain ⟨hok, k, h1, h2, h3, h4, h5⟩ :=
+    redb_crash_reopen_partial B hB v name parent hlink d₀ id0 hid hd₀ _ hw'
+      (validRun_of_validated v _ hval' _ storedValid_init) d' n hc newId
+  obtain ⟨j, hj, ej⟩ := take_filter_exists (issuesTx v) ops k h3
+  refine ⟨hok, k, j, h1, h2, h3, hj, ej, ?_, h5⟩
+  rw [h4, ← ej, run_filter]
+
+/-! ### non-vacuity of the instantiated theorems -/
+
+/-- a verification oracle that is hash-linked: the content id of a header records the hash its
+    `last_block_id` points to -/
+def exV : Hdr → Hdr → Bool := fun a b => decide (b.id = a.hash)
+def exParent : Hdr → Hash := fun x => x.id
+def hd (i height hash : Nat) : Hdr := ⟨i, height, hash, true⟩
+/-- accepted span, mark, metadata, a fork header (rejected: neighbours), a batch rejected by
+    the conversion, a query, an accepted append, a removal -/
+def exOps : List Op :=
+  [ .insert [hd 0 1 101, hd 101 2 102], .mark 2, .updMeta 1 [5, 6], .insert [hd 7 3 110],
+    .insert [hd 102 3 103, hd 9 5 105], .head, .insert [hd 102 3 103], .remove 1 ]
+
+example : HashLinked exV exParent := by
+  intro x y _ h; simpa [exV, exParent] using h
+example : AllWf exOps := by unfold AllWf; decide
+example : AllValidated exOps := by unfold AllValidated; decide
+example : ValidRun exV Lumina.Spec.C19.init exOps :=
+  validRun_of_validated exV exOps (by unfold AllValidated; decide) _ storedValid_init
+example : exOps.map (issuesTx exV) = [true, true, true, true, false, false, true, true] := by decide
+example : (runOps (RedbStore.step exV) RedbStore.new exOps).2 =
+    [.ok .unit, .ok .unit, .ok .unit, .err .neighborsVerificationFailed, .err .headersVerificationFailed,
+     .ok (.hdr (hd 101 2 102)), .ok .unit, .ok .unit] := by decide
+
+/-- crash images of that history on the ideal backend: idle after 3 calls; inside the closure
+    of the 4th -/
+example : CrashImage (idealBackend Db) (fresh 7) (exOps.map (txOf exV))
+    (runDisk (idealBackend Db) (fresh 7) ((exOps.take 3).map (txOf exV))) 3 :=
+  CrashImage.idle ((exOps.take 3).map (txOf exV)) ((exOps.drop 3).map (txOf exV)) (by
+    rw [← List.map_append, List.take_append_drop])
+example : CrashImage (idealBackend Db) (fresh 7) (exOps.map (txOf exV))
+    (runDisk (idealBackend Db) (fresh 7) ((exOps.take 3).map (txOf exV))) 3 :=
+  CrashImage.inClosure (B := idealBackend Db) ((exOps.take 3).map (txOf exV)) ((exOps.drop 4).map (txOf exV))
+    (txOf exV (.insert [hd 7 3 110])) _ rfl rfl
+
+/-- … and inside `commit` of the first call, the new state already visible -/
+example : CrashImage (idealBackend Db) (fresh 7) (exOps.map (txOf exV))
+    (applyOp (fresh 7) (txOf exV (.insert [hd 0 1 101, hd 101 2 102]))) 0 :=
+  CrashImage.inCommit (B := idealBackend Db) [] ((exOps.drop 1).map (txOf exV))
+    (txOf exV (.insert [hd 0 1 101, hd 101 2 102]))
+    (applyOp (fresh 7) (txOf exV (.insert [hd 0 1 101, hd 101 2 102]))) _ rfl (by rfl) (Or.inr rfl)
+
+end Redb
 
 end Lumina.Props.C22
